@@ -49,7 +49,7 @@ NOTES = {
  'exploration': 'finite grammar of signatures / values; nothing is claimed outside the printed alphabets',
  'fault_enumeration': 'process-kill model (completed calls durable); libc interposition validated against strace',
 }
-READY = ['C01','C02','C03','C04','C08','C05','C06','C07','C09','C10','C11','C12','C15','C16','C17','C18','C19','C20']
+READY = ['C01','C02','C03','C04','C08','C13','C14','C05','C06','C07','C09','C10','C11','C12','C15','C16','C17','C18','C19','C20']
 
 
 def main():
